@@ -11,7 +11,8 @@ RULE = ("implicit: Hypothesis build programs without explicit relations (<= 8 it
         "sub-circuits, all 26 kinds, all durations, optional global override); explicit: the same with explicit relations "
         "(only the multiset / no-sub-circuit / idempotence clauses are asserted there). Oracle: the multiset of listed "
         "(kind, channels, qubits, duration, tag, annotation fields) is the same before and after flatten(), "
-        "composite_operations is empty afterwards, the returned circuit lists the same objects as the flattened one, and "
+        "composite_operations is empty afterwards, the flattened listing is causal (every reported reference is listed, "
+        "and earlier), the returned circuit lists the same objects as the flattened one, and "
         "a second flatten() changes neither listing nor schedule. library: repetition-code circuits (d 2..4, 0..6 cycles, "
         "refocusing on/off), the simplified constructor, multi-round experiments and calibration circuits, modifiers "
         "applied: listing signature sequence, schedule, duration, acquisition indices (per qubit and per tag) and the "
@@ -73,6 +74,19 @@ def body(case, ctx):
             ctx.fail("flatten-multiset", f"{len(before)} operations before, {len(after)} after; lost {missing[:3]}, gained {extra[:3]}")
         if comps:
             ctx.fail("flatten-sub-circuit-remains", f"{len(comps)} sub-circuit(s) remain after flatten()")
+        # the flattened circuit is a circuit: its listing must still be causal (C02) - nothing before what it refers to
+        pos = {id(o): i for i, o in enumerate(ops)}
+        for i, o in enumerate(ops):
+            ref = None
+            with ctx.lib("relation of flattened operation"):
+                ref = o.relation_link.reference_node
+            if ref is None:
+                continue
+            j = pos.get(id(ref))
+            if j is None:
+                ctx.fail("flatten-dangling-relation", f"{after[i][0]} at position {i} of the flattened circuit refers to a {type(ref).__name__} that is not in the circuit")
+            elif j >= i:
+                ctx.fail("flatten-not-causal", f"{after[i][0]} at position {i} of the flattened circuit is listed before the operation it refers to (position {j})")
         if not same_as_original:
             ctx.fail("flatten-result-detached", "the circuit returned by flatten() lists other objects than the flattened circuit")
         again = None
